@@ -604,7 +604,16 @@ def W16():
     return w
 
 
-FAMILIES = {"W0": W0, "W1": W1, "W2": W2, "W3": W3, "W4": W4, "W16": W16}
+def W1f():
+    """W1 with fractional hourly starts that are exactly representable at 3 decimals (for the JSON round trip)."""
+    w = W1()
+    w["name"] = "W1f"
+    w["objects"]["up"]["attrs"]["hourly_usage_journey_starts"] = H([1.125, 2.5, 0.0, 3.375, 5.25, 1.001], "2025-01-01 00:00")
+    w["objects"]["up2"]["attrs"]["hourly_usage_journey_starts"] = H([4.75, 0.5, 2.002, 3.0], "2025-01-01 02:00")
+    return w
+
+
+FAMILIES = {"W0": W0, "W1": W1, "W2": W2, "W3": W3, "W4": W4, "W16": W16, "W1f": W1f}
 
 
 def family(name):
